@@ -1,5 +1,5 @@
 (* Property C10 - every record is counted once or reported skipped; strict mode; no partial output. *)
-From Sfs Require Import Index ArrayM Scalar Spectrum Project Create SampleParse Npy Text Container IndexP ArrayP BinomP ProjectP CreateP CreateSpecP SampleParseP SampleParseGenP ContainerP.
+From Sfs Require Import Index ArrayM Scalar Spectrum Project Create SampleParse Npy Text Container IndexP ArrayP BinomP ProjectP CreateP CreateSpecP SampleParseP SampleParseGenP ContainerP SampleFieldP.
 From Coq Require Import Permutation.
 Close Scope string_scope.
 
